@@ -72,6 +72,11 @@ func Generate(w Weights, seed int64, id int) *Workload {
 				if rng.Intn(100) < w.FrameShape && sz >= 8 {
 					e.Data = gen.FrameShaped(rng, sz)
 				}
+				if w.LowIndexes && next <= 3 && rng.Intn(100) < 2*w.FrameShape {
+					e.Data = gen.AlignedFrameShaped(rng)
+					e.Term = uint64(1 + rng.Intn(100))
+					e.Type = raft.LogType(rng.Intn(4))
+				}
 				logs = append(logs, e)
 				next++
 			}
